@@ -43,6 +43,8 @@ pub struct Quirks {
     pub post_with_rel_props_ignored: bool,
     /// WITH ... [ORDER BY] SKIP/LIMIT ... WHERE applies the WHERE before the window
     pub with_where_before_window: bool,
+    /// MERGE of a relationship between two bound nodes ignores the written direction
+    pub merge_bound_rel_left_to_right: bool,
 }
 
 pub fn expr_vars(e: &E, out: &mut Vec<String>) {
@@ -115,6 +117,8 @@ pub struct Ctx<'a> {
     pub after_with: bool,
     /// the path being matched starts at an already-bound variable
     pub path_starts_bound: bool,
+    /// some MERGE found more than one existing match
+    pub merge_multi_match: bool,
 }
 
 // ---------------------------------------------------------------------------------------
@@ -1397,7 +1401,21 @@ fn run_part(clauses: &[Clause], cx: &mut Ctx) -> Result<(Vec<String>, Projected)
             Clause::Merge { pattern, on_create, on_match } => {
                 let mut next = Vec::new();
                 for env in &rows {
+                    // quirk: between two bound nodes the written direction is ignored (always left to right)
+                    let mut pattern_q = pattern.clone();
+                    if cx.quirks.merge_bound_rel_left_to_right {
+                        let start_bound = pattern_q.start.var.as_ref().map(|v| env.contains_key(v)).unwrap_or(false);
+                        for (r, n) in pattern_q.steps.iter_mut() {
+                            if start_bound && n.var.as_ref().map(|v| env.contains_key(v)).unwrap_or(false) {
+                                r.dir = Dir::Out;
+                            }
+                        }
+                    }
+                    let pattern = &pattern_q;
                     let found = match_patterns(std::slice::from_ref(pattern), env, cx)?;
+                    if found.len() > 1 {
+                        cx.merge_multi_match = true;
+                    }
                     if found.is_empty() {
                         // MERGE of an undirected relationship creates it left-to-right
                         let mut p2 = pattern.clone();
@@ -1509,11 +1527,12 @@ fn run_part(clauses: &[Clause], cx: &mut Ctx) -> Result<(Vec<String>, Projected)
 pub struct RunOut {
     pub result: RefResult,
     pub wrote: bool,
+    pub merge_multi_match: bool,
 }
 
 /// Evaluate a query on the reference graph (mutating it for write clauses).
 pub fn run(g: &mut RGraph, q: &Query, quirks: &Quirks, params: &BTreeMap<String, V>) -> Result<RunOut, RefErr> {
-    let mut cx = Ctx { g, quirks, params, nondet: false, num_ambig: false, wrote: false, after_with: false, path_starts_bound: false };
+    let mut cx = Ctx { g, quirks, params, nondet: false, num_ambig: false, wrote: false, after_with: false, path_starts_bound: false, merge_multi_match: false };
     let mut columns: Vec<String> = Vec::new();
     let mut all_rows: Vec<Vec<V>> = Vec::new();
     let mut last: Option<Projected> = None;
@@ -1557,5 +1576,5 @@ pub fn run(g: &mut RGraph, q: &Query, quirks: &Quirks, params: &BTreeMap<String,
         };
         RefResult { columns, rows: last.rows, order_cols: last.order_cols, pre_window: last.pre_window, skip, limit, nondeterministic: cx.nondet, numeric_grouping_ambiguity: cx.num_ambig }
     };
-    Ok(RunOut { result, wrote: cx.wrote })
+    Ok(RunOut { result, wrote: cx.wrote, merge_multi_match: cx.merge_multi_match })
 }
